@@ -259,7 +259,7 @@ pub fn world(ch: &mut Chooser) -> World {
     // ---------------- fb invocation
     let inv = ch.pick(
         "invoke",
-        &["formal-all", "none", "no-args", "formal-some", "positional-exact", "formal+inout", "unknown-formal", "mixed", "positional-too-few", "positional-too-many", "unknown-output", "output-only", "formal-wrong-case", "positional+output", "positional+unknown-output", "unknown-output-only"],
+        &["formal-all", "none", "no-args", "formal-some", "positional-exact", "formal+inout", "unknown-formal", "mixed", "positional-too-few", "positional-too-many", "unknown-output", "output-only", "formal-wrong-case", "positional+output", "positional+unknown-output", "unknown-output-only", "output-named-as-input", "input-named-as-output", "in-out-named-as-output"],
         1,
     );
     let inv_s = [
@@ -279,6 +279,10 @@ pub fn world(ch: &mut Chooser) -> World {
         "inst ( x , TRUE , q => y ) ;",
         "inst ( x , TRUE , zz => y ) ;",
         "inst ( zz => y ) ;",
+        // a name the callee does declare, in the other direction
+        "inst ( a := x , q := y ) ;",
+        "inst ( a := x , b => y ) ;",
+        "inst ( a := x , io => y ) ;",
     ][inv];
     match inv {
         6 => {
@@ -290,8 +294,11 @@ pub fn world(ch: &mut Chooser) -> World {
         8 | 9 => {
             w.violated.insert("P0008");
         }
-        10 | 14 | 15 => {
+        10 | 14 | 15 | 17 | 18 => {
             w.violated.insert("P0009");
+        }
+        16 => {
+            w.violated.insert("P0007");
         }
         _ => {}
     }
